@@ -176,6 +176,20 @@ class Sink:
         return out
 
 
+class LambdaClosure:
+    def __init__(self, node, env):
+        self.node = node
+        self.env = env
+
+
+class SentinelIter:
+    """iter(callable, sentinel): iterated lazily by the for statement"""
+
+    def __init__(self, fn, sentinel):
+        self.fn = fn
+        self.sentinel = sentinel
+
+
 class Closure:
     def __init__(self, node, env, interp):
         self.node = node
@@ -351,6 +365,9 @@ class Interp:
             return getattr(o, n.attr)
         except AttributeError:
             raise HarnessGap(f"attribute {n.attr!r} of {type(o).__name__}")
+
+    def e_Lambda(self, n, env):
+        return LambdaClosure(n, env)
 
     def e_IfExp(self, n, env):
         c = self.ev(n.test, env)
@@ -605,7 +622,7 @@ class Interp:
             return list(v)
         if isinstance(v, (list, tuple, str)):
             return list(v)
-        if isinstance(v, SymRange):
+        if isinstance(v, (SymRange, SentinelIter)):
             return v
         raise HarnessGap(f"iteration over {type(v).__name__}")
 
@@ -629,6 +646,12 @@ class Interp:
             except _Return as r:
                 return r.v
             return None
+        if isinstance(f, LambdaClosure):
+            loc = {}
+            for a, v in zip([a.arg for a in f.node.args.args], args):
+                loc[a] = v
+            loc.update(kwargs)
+            return self.ev(f.node.body, [loc] + f.env)
         if isinstance(f, tuple) and f and f[0] == "attr":
             return self.method(f[1], f[2], args, kwargs)
         if isinstance(f, Intrinsic):
@@ -639,6 +662,8 @@ class Interp:
             sub = Interp(self.path, f.__globals__, self.intr, self.unwind, self.range_unwind)
             sub.stats = self.stats
             return sub.call(Closure(node, [], sub), args, kwargs)
+        if getattr(f, "__name__", "") == "unpack" and getattr(f, "__module__", "") in ("_struct", "struct"):
+            return i_struct_unpack(self, *args)
         symbolic = any(isinstance(a, (Sym, Bytes, SList, Stream, Sink, SymFrac, z3.ExprRef)) for a in list(args) + list(kwargs.values()))
         if symbolic:
             raise HarnessGap(f"real function {getattr(f, '__name__', f)!r} called with symbolic arguments")
@@ -811,6 +836,27 @@ class Interp:
                 except _Continue:
                     pass
                 k += 1
+            self.block(s.orelse, env)
+            return
+        if isinstance(it, SentinelIter):
+            k = 0
+            while True:
+                v = self.call(it.fn, [], {})
+                same = (isinstance(v, (Bytes, SList)) and isinstance(it.sentinel, (Bytes, SList, bytes, str)) and len(v.cells) == 0 and len(it.sentinel.cells if isinstance(it.sentinel, (Bytes, SList)) else it.sentinel) == 0)
+                if not same and not isinstance(v, (Bytes, SList)):
+                    same = self.truth(self.compare("Eq", v, it.sentinel))
+                if same:
+                    break
+                if k >= self.unwind:
+                    raise Unwind(f"for over iter(callable, sentinel) beyond {self.unwind} iterations")
+                k += 1
+                self.assign(s.target, v, env)
+                try:
+                    self.block(s.body, env)
+                except _Break:
+                    return
+                except _Continue:
+                    pass
             self.block(s.orelse, env)
             return
         for v in it:
@@ -989,6 +1035,49 @@ def i_int(I, x, base=None):
     return int(x) if base is None else int(x, base)
 
 
+def i_struct_unpack(I, fmt, data):
+    """struct.unpack for the byte / half-word codes b B h H (and x) with an optional byte-order character"""
+    order = ">"
+    if fmt and fmt[0] in "<>=!@":
+        order = "<" if fmt[0] == "<" else ">" if fmt[0] in ">!" else "<"  # native on the machines this runs on: little endian
+        fmt = fmt[1:]
+    cells_ = list(data.cells) if isinstance(data, (Bytes, SList)) else list(data)
+    need = sum({"b": 1, "B": 1, "x": 1, "h": 2, "H": 2}.get(ch, 99) for ch in fmt)
+    if need > 90:
+        raise HarnessGap(f"struct.unpack format {fmt!r}")
+    if need != len(cells_):
+        raise Failure("struct.error", f"unpack requires a buffer of {need} bytes")
+    out = []
+    pos = 0
+    for ch in fmt:
+        if ch == "x":
+            pos += 1
+            continue
+        n = 1 if ch in "bB" else 2
+        part = cells_[pos:pos + n]
+        pos += n
+        if order == "<":
+            part = part[::-1]
+        if all(isinstance(c, int) for c in part):
+            v = 0
+            for c in part:
+                v = v * 256 + c
+            if ch in "bh" and v >= 1 << (8 * n - 1):
+                v -= 1 << (8 * n)
+            out.append(v)
+            continue
+        t = bv(0)
+        for c in part:
+            t = t * bv(256) + term(c)
+        if ch in "bh":
+            half = 1 << (8 * n - 1)
+            t = z3.If(z3.UGE(t, bv(half)), t - bv(1 << (8 * n)), t)
+            out.append(Sym(z3.simplify(t), -half, half - 1))
+        else:
+            out.append(Sym(z3.simplify(t), 0, (1 << (8 * n)) - 1))
+    return tuple(out)
+
+
 def i_from_bytes(I, data, byteorder="big", signed=False):
     """int.from_bytes on a (possibly empty) sequence of symbolic bytes"""
     if signed:
@@ -1050,6 +1139,7 @@ BASE_INTRINSICS = {
     "pack": Intrinsic(i_pack),
     "range": Intrinsic(i_range),
     "len": Intrinsic(i_len),
+    "iter": Intrinsic(lambda I, fn, *sentinel: SentinelIter(fn, sentinel[0]) if sentinel else I.iterate(fn)),
     "int": Intrinsic(i_int),
     "print": Intrinsic(i_noop),
     "bytearray": Intrinsic(i_bytearray),
